@@ -200,4 +200,4 @@ def parameters_reach_their_fields(model: Model, run: Run, rule: str = "M2-call-p
                     if not ok:
                         run.fail(Finding(rule, fq, f"{q.split('.')[-1]}.{fname}={v.id}", f"{fi.name} stores its parameter `{v.id}` in {q.split('.')[-1]}.{fname} although the class has a field "
                                          f"`{v.id}` of its own: the peer receives the two values exchanged", model.loc(fi.module, c)))
-    run.floor("parameters stored in same-named message fields", n, 15)
+    run.floor("parameters stored in same-named message fields", n, 8)
